@@ -322,27 +322,45 @@ def expr_place(du, pl, depth=0):
         elif k == "agg":
             e = ("agg", rv.get("agg"), tuple(expr(du, o, depth + 1) for o in rv["ops"]))
             if rv.get("agg") == "adt":
-                e = e + (rv.get("adt"),)
-            # projection into an aggregate: pick the component
-            while path:
-                if isinstance(path[0], str) and path[0].startswith("as:") and e[0] == "agg" and rvk.get("agg") == "adt" and path[0][3:] == str(rvk.get("variant")):
-                    path = path[1:]
-                    continue
-                break
-            if path and isinstance(path[0], int) and path[0] < len(e[2]) and rv.get("agg") in ("tuple", "array"):
-                e, path = e[2][path[0]], path[1:]
-            elif path and rv.get("agg") == "adt" and path[0] in (rv.get("fields") or []):
-                e, path = e[2][rv["fields"].index(path[0])], path[1:]
-            while path and e[0] == "agg" and e[1] in ("tuple", "array") and isinstance(path[0], int) and path[0] < len(e[2]):
-                e, path = e[2][path[0]], path[1:]
-            if path and e[0] == "path":
-                e, path = e[1], tuple(e[2]) + tuple(path)
+                # (.., adt name, field names, variant name) so that projections can descend by name
+                e = e + (rv.get("adt"), tuple(str(f) for f in (rv.get("fields") or [])), rv.get("variant"))
+            e, path = project_expr(e, path)
         elif k == "repeat":
             e = ("repeat", expr(du, rv["x"], depth + 1), rv.get("n"))
         else:
             e = ("rv", k)
         return e if not path else ("path", e, path)
     return ("multi", r[1], _path_of(r[2]))
+
+
+def project_expr(e, path):
+    """descend into aggregate expression trees along a place path (variant downcasts, tuple/array indices, field names)"""
+    path = tuple(path)
+    while path:
+        if e[0] == "path":
+            e, path = e[1], tuple(e[2]) + path
+            continue
+        if e[0] != "agg":
+            break
+        kind = e[1]
+        p0 = path[0]
+        if kind == "adt":
+            fields = e[4] if len(e) > 4 else ()
+            variant = e[5] if len(e) > 5 else None
+            if isinstance(p0, str) and p0.startswith("as:"):
+                if variant is not None and p0[3:] == str(variant):
+                    path = path[1:]
+                    continue
+                break
+            if str(p0) in fields:
+                e, path = e[2][fields.index(str(p0))], path[1:]
+                continue
+            break
+        if kind in ("tuple", "array") and isinstance(p0, int) and p0 < len(e[2]):
+            e, path = e[2][p0], path[1:]
+            continue
+        break
+    return e, path
 
 
 def show(e, depth=0):
